@@ -72,7 +72,9 @@ pub(crate) fn symbol_exact<'a>(t: &'a str) -> impl FnMut(Span<'a>) -> IResult<Sp
 #[cfg(not(feature = "trace"))]
 pub(crate) fn keyword<'a>(t: &'a str) -> impl FnMut(Span<'a>) -> IResult<Span<'a>, Keyword> {
     move |s: Span<'a>| {
-        if !is_reserved_in_force(t, &s) {
+        // the names of compiler directives are not reserved words: `include stays a directive
+        // where the keyword set in force (1364-1995, 1364-2001-noconfig) has no keyword "include"
+        if !in_directive() && !is_reserved_in_force(t, &s) {
             return Err(Err::Error(make_error(s, ErrorKind::Fix)));
         }
         let (s, x) = map(
